@@ -537,7 +537,12 @@ impl Tcp {
             },
             Segment::Fin(seq) => match self.sockets.get_mut(&SocketPair::new(dst, src)) {
                 Some(sock) => sock.buffer(seq, SequencedSegment::Fin)?,
-                None => return Err(Protocol::Tcp(Segment::Rst)),
+                // A FIN for a stream this side has already closed completely is
+                // the ordinary tail of a close handshake, not an error: the peer
+                // is only announcing that it will send no more. Answering it
+                // with RST would tear down the peer's socket and discard data
+                // (and our own FIN) it has not read yet.
+                None => {}
             },
             Segment::Rst => {
                 if self.sockets.get(&SocketPair::new(dst, src)).is_some() {
